@@ -1,27 +1,71 @@
 //! Environment model of nix::unistd as used by acmed::storage::set_owner.
-#![allow(static_mut_refs, dead_code, unused_variables)]
-use std::fmt;
-#[derive(Debug, Clone, Copy, PartialEq)]
-pub struct Error(pub i32);
-impl fmt::Display for Error { fn fmt(&self, f: &mut fmt::Formatter) -> fmt::Result { write!(f, "errno {}", self.0) } }
-impl std::error::Error for Error {}
+#![allow(dead_code, unused_variables)]
+/// acme_common converts std::io::Error (the real crate's Errno conversion lives in acme_common and is
+/// tied to the real nix type)
+pub type Error = std::io::Error;
 pub type Result<T> = std::result::Result<T, Error>;
+pub struct NixState {
+    pub magic: u64,
+    /// id the user / group database maps every known name to (None: name unknown)
+    pub known_user: Option<u32>,
+    pub known_group: Option<u32>,
+    pub chown_calls: u32,
+    pub chown_uid: Option<u32>,
+    pub chown_gid: Option<u32>,
+    pub chown_fails: bool,
+}
+pub static mut NIX: NixState = NixState { magic: 0x0417_C0DE_ACED_0006, known_user: None, known_group: None, chown_calls: 0, chown_uid: None, chown_gid: None, chown_fails: false };
+pub fn st() -> &'static mut NixState {
+    unsafe { &mut *core::ptr::addr_of_mut!(NIX) }
+}
 pub mod unistd {
     use super::*;
     use std::path::Path;
-    #[derive(Debug, Clone, Copy, PartialEq)] pub struct Uid(pub u32);
-    #[derive(Debug, Clone, Copy, PartialEq)] pub struct Gid(pub u32);
-    impl Uid { pub fn from_raw(u: u32) -> Self { Uid(u) } pub fn as_raw(&self) -> u32 { self.0 } }
-    impl Gid { pub fn from_raw(u: u32) -> Self { Gid(u) } pub fn as_raw(&self) -> u32 { self.0 } }
-    pub struct User { pub uid: Uid }
-    pub struct Group { pub gid: Gid }
-    pub static mut KNOWN_USER: Option<u32> = None;
-    pub static mut KNOWN_GROUP: Option<u32> = None;
-    pub static mut CHOWN_CALL: Option<(Option<u32>, Option<u32>)> = None;
-    pub static mut CHOWN_FAILS: bool = false;
-    impl User { pub fn from_name(n: &str) -> Result<Option<User>> { Ok(unsafe { KNOWN_USER }.map(|u| User { uid: Uid(u) })) } }
-    impl Group { pub fn from_name(n: &str) -> Result<Option<Group>> { Ok(unsafe { KNOWN_GROUP }.map(|g| Group { gid: Gid(g) })) } }
+    #[derive(Debug, Clone, Copy, PartialEq)]
+    pub struct Uid(pub u32);
+    #[derive(Debug, Clone, Copy, PartialEq)]
+    pub struct Gid(pub u32);
+    impl Uid {
+        pub fn from_raw(u: u32) -> Self {
+            Uid(u)
+        }
+        pub fn as_raw(&self) -> u32 {
+            self.0
+        }
+    }
+    impl Gid {
+        pub fn from_raw(u: u32) -> Self {
+            Gid(u)
+        }
+        pub fn as_raw(&self) -> u32 {
+            self.0
+        }
+    }
+    pub struct User {
+        pub uid: Uid,
+    }
+    pub struct Group {
+        pub gid: Gid,
+    }
+    impl User {
+        pub fn from_name(n: &str) -> Result<Option<User>> {
+            Ok(st().known_user.map(|u| User { uid: Uid(u) }))
+        }
+    }
+    impl Group {
+        pub fn from_name(n: &str) -> Result<Option<Group>> {
+            Ok(st().known_group.map(|g| Group { gid: Gid(g) }))
+        }
+    }
     pub fn chown<P: AsRef<Path> + ?Sized>(p: &P, u: Option<Uid>, g: Option<Gid>) -> Result<()> {
-        unsafe { CHOWN_CALL = Some((u.map(|x| x.0), g.map(|x| x.0))); if CHOWN_FAILS { Err(Error(1)) } else { Ok(()) } }
+        let s = st();
+        s.chown_calls += 1;
+        s.chown_uid = u.map(|x| x.0);
+        s.chown_gid = g.map(|x| x.0);
+        if s.chown_fails {
+            Err(std::io::Error::from(std::io::ErrorKind::PermissionDenied))
+        } else {
+            Ok(())
+        }
     }
 }
